@@ -180,14 +180,58 @@ func storeN(arr string, idx []string, v string) string {
 // leafLoad reads one scalar leaf.
 func (x *Exec) leafLoad(st *State, key string, base string, idx []string, sort string) string {
 	l := x.leaf(key, len(idx), sort)
-	return selectN(x.heapGet(st, l), append([]string{base}, idx...))
+	cur := x.heapGet(st, l)
+	// read-over-write: walk back through stores that syntactically hit or miss
+	for {
+		rec, ok := x.em.stores[cur]
+		if !ok || len(rec.idx) != len(idx) {
+			break
+		}
+		if rec.base == base && sameTerms(rec.idx, idx) {
+			return rec.val
+		}
+		if distinctRefs(rec.base, base) || (rec.base == base && distinctLits(rec.idx, idx)) {
+			cur = rec.prev
+			continue
+		}
+		break
+	}
+	return selectN(cur, append([]string{base}, idx...))
+}
+
+func sameTerms(a, b []string) bool {
+	for i := range a {
+		if a[i] != b[i] {
+			return false
+		}
+	}
+	return true
+}
+
+// distinctRefs: two different allocation sites of this function, or an
+// allocation of this function versus the entry frontier-bounded names, differ.
+func distinctRefs(a, b string) bool {
+	return a != b && strings.HasPrefix(a, "new!") && strings.HasPrefix(b, "new!")
+}
+
+func distinctLits(a, b []string) bool {
+	for i := range a {
+		if isLit(a[i]) && isLit(b[i]) && a[i] != b[i] {
+			return true
+		}
+	}
+	return false
 }
 
 func (x *Exec) leafStore(st *State, key string, base string, idx []string, sort string, v string) {
 	l := x.leaf(key, len(idx), sort)
 	cur := x.heapGet(st, l)
 	nt := storeN(cur, append([]string{base}, idx...), v)
-	st.Heap[key] = x.em.define("H."+key, l.ArraySort(), nt)
+	name := x.em.define("H."+key, l.ArraySort(), nt)
+	st.Heap[key] = name
+	if name != nt {
+		x.em.stores[name] = &storeRec{prev: cur, base: base, idx: append([]string{}, idx...), val: v}
+	}
 	x.recordWrite(key, base, false)
 }
 
@@ -294,7 +338,7 @@ func (x *Exec) asSlice(v Value, elem types.Type) SliceV {
 		return s
 	case Scalar:
 		if s.T == "nil" {
-			return SliceV{Base: "0", Off: bvLit(0, 64), Len: bvLit(0, 64), Cap: bvLit(0, 64), Elem: elem}
+			return SliceV{Base: "0", Off: bvLit(0, 64), Len: bvLit(0, 64), Cap: bvLit(0, 64), Elem: elem, New: true}
 		}
 	}
 	x.fail("expected slice, got %T", v)
@@ -363,7 +407,7 @@ func (x *Exec) zeroValue(t types.Type) Value {
 		}
 		return r
 	case *types.Slice:
-		return SliceV{Base: "0", Off: bvLit(0, 64), Len: bvLit(0, 64), Cap: bvLit(0, 64), Elem: u.Elem()}
+		return SliceV{Base: "0", Off: bvLit(0, 64), Len: bvLit(0, 64), Cap: bvLit(0, 64), Elem: u.Elem(), New: true}
 	case *types.Interface:
 		return Iface{Tag: "0", Ref: "0", Typ: t}
 	case *types.Pointer:
@@ -614,6 +658,7 @@ func (x *Exec) iteValue(c string, a, b Value) Value {
 		if av.Own != nil && bv.Own != nil && av.Own.Key == bv.Own.Key && av.Own.Base == bv.Own.Base {
 			r.Own = av.Own
 		}
+		r.New = av.New && bv.New
 		return r
 	case Iface:
 		bv := x.asIface(b, av.Typ)
@@ -1000,29 +1045,76 @@ func (x *Exec) loopHeader(fr *Frame, l *loopInfo, stEntry *State, ins []edgeIn, 
 		phis = append(phis, phi)
 		entryVals[phi] = x.phiValue(fr, phi, ins)
 	}
-	// 1. discovery pass: which leaves does one iteration write?
+	// 1. discovery pass: which leaves does one iteration write? Slice-typed
+	// loop variables that start out as function-allocated (or nil) arrays and
+	// stay so across an iteration keep that status (optimistic fixpoint).
+	phiNew := map[*ssa.Phi]bool{}
+	for _, phi := range phis {
+		if sv, ok := entryVals[phi].(SliceV); ok && sv.New {
+			phiNew[phi] = true
+		}
+	}
+	backIdx := []int{}
+	for j, p := range b.Preds {
+		if l.backPred[p.Index] && isBackEdge(p, b) {
+			backIdx = append(backIdx, j)
+		}
+	}
+	var disc map[string]*WriteSet
 	mark := x.em.n
-	savedVals := fr.vals
-	savedOut, savedEdge, savedWritten, savedRets := fr.blockOut, fr.edge, x.written, fr.rets
-	savedDefers := fr.defers
-	fr.vals = make(map[ssa.Value]Value, len(savedVals))
-	for k, v := range savedVals {
-		fr.vals[k] = v
+	for round := 0; round < 4; round++ {
+		mark = x.em.n
+		savedVals := fr.vals
+		savedOut, savedEdge, savedWritten, savedRets := fr.blockOut, fr.edge, x.written, fr.rets
+		savedDefers := fr.defers
+		savedOcc := make(map[string]int, len(fr.occ))
+		for k, v := range fr.occ {
+			savedOcc[k] = v
+		}
+		fr.vals = make(map[ssa.Value]Value, len(savedVals))
+		for k, v := range savedVals {
+			fr.vals[k] = v
+		}
+		for phi, v := range entryVals {
+			if sv, ok := v.(SliceV); ok {
+				sv.New = phiNew[phi]
+				v = sv
+			}
+			fr.vals[phi] = v
+		}
+		fr.blockOut = map[int]*State{}
+		fr.edge = map[[2]int]string{}
+		x.written = map[string]*WriteSet{}
+		wasDiscard := x.em.discard
+		x.em.discard = true
+		x.discover++
+		x.runRegion(fr, order, b, stEntry.clone(), l.body)
+		x.discover--
+		x.em.discard = wasDiscard
+		disc = x.written
+		changed := false
+		for _, phi := range phis {
+			if !phiNew[phi] {
+				continue
+			}
+			for _, j := range backIdx {
+				if v, ok := fr.vals[phi.Edges[j]]; ok {
+					if sv, ok := v.(SliceV); !ok || !sv.New {
+						phiNew[phi] = false
+						changed = true
+					}
+				} else if _, isConst := phi.Edges[j].(*ssa.Const); !isConst {
+					phiNew[phi] = false
+					changed = true
+				}
+			}
+		}
+		fr.vals, fr.blockOut, fr.edge, x.written, fr.rets, fr.defers = savedVals, savedOut, savedEdge, savedWritten, savedRets, savedDefers
+		fr.occ = savedOcc
+		if !changed {
+			break
+		}
 	}
-	for phi, v := range entryVals {
-		fr.vals[phi] = v
-	}
-	fr.blockOut = map[int]*State{}
-	fr.edge = map[[2]int]string{}
-	x.written = map[string]*WriteSet{}
-	wasDiscard := x.em.discard
-	x.em.discard = true
-	x.discover++
-	x.runRegion(fr, order, b, stEntry.clone(), l.body)
-	x.discover--
-	x.em.discard = wasDiscard
-	disc := x.written
-	fr.vals, fr.blockOut, fr.edge, x.written, fr.rets, fr.defers = savedVals, savedOut, savedEdge, savedWritten, savedRets, savedDefers
 
 	// 2. invariant on entry
 	if x.discover == 0 && l.spec != nil {
@@ -1048,12 +1140,17 @@ func (x *Exec) loopHeader(fr *Frame, l *loopInfo, stEntry *State, ins []edgeIn, 
 		ws := disc[k]
 		lf := x.leaves[k]
 		whole := ws.Whole
-		innerNew := false // objects allocated inside the loop body were written
+		innerNew := false // objects allocated by this function were written at loop-varying addresses
+		bound := stEntry.Frontier
 		var outside []string
 		for _, bt := range ws.Bases {
 			if definedAfter(bt, mark) {
 				if ws.New[bt] {
 					innerNew = true
+					if !strings.HasPrefix(bt, "new!") {
+						// allocated by this function, but possibly before the loop
+						bound = x.F0
+					}
 				} else {
 					whole = true
 				}
@@ -1082,7 +1179,7 @@ func (x *Exec) loopHeader(fr *Frame, l *loopInfo, stEntry *State, ins []edgeIn, 
 			nw := x.em.freshConst("Hn."+k, lf.ArraySort())
 			q := x.em.fresh("r")
 			x.em.assume(fmt.Sprintf("(forall ((%s Int)) (! (=> (<= %s %s) (= (select %s %s) (select %s %s))) :pattern ((select %s %s))))",
-				q, q, stEntry.Frontier, nw, q, cur, q, nw, q))
+				q, q, bound, nw, q, cur, q, nw, q))
 			st.Heap[k] = nw
 			saved := x.storeNew
 			x.storeNew = true
@@ -1097,6 +1194,12 @@ func (x *Exec) loopHeader(fr *Frame, l *loopInfo, stEntry *State, ins []edgeIn, 
 	st.Frontier = nf
 	for _, phi := range phis {
 		fr.vals[phi] = x.freshValue(phi.Type(), phi.Comment, st)
+		if phiNew[phi] {
+			sv := fr.vals[phi].(SliceV)
+			sv.New = true
+			fr.vals[phi] = sv
+			x.em.assume("(or (= " + sv.Base + " 0) (> " + sv.Base + " " + x.F0 + "))")
+		}
 		if phi.Comment == "rangeindex" {
 			// range loops over slices: the hidden index starts at -1 and is bounded by len
 			t := x.term(fr.vals[phi])
